@@ -4,7 +4,7 @@ from __future__ import annotations
 import sys
 from datetime import timedelta
 
-from .. import canboat, gen
+from .. import canboat, collide, gen
 from ..common import Ctx, chunks, pmap
 
 LEVEL = "exploration"
@@ -14,7 +14,7 @@ LEVEL_TEXT = ("Differential testing of all 418 generated decoders against an ind
               "edit of the 59k generated lines visible in the quick tier.")
 TECHNIQUE = "property-based differential testing (Hypothesis) against a database reference model + systematic boundary-class sweep"
 RULE = ("all 418 definitions: systematic sweep of every (field, raw-class) pair with the other fields benign, plus per-definition "
-        "Hypothesis draws combining classes over all fields (any-class and accepted-only modes), numeric literals harvested from the library sources as raws/values, every one-bit neighbour of every match value, decoded through "
+        "Hypothesis draws combining classes over all fields (any-class and accepted-only modes), numeric literals harvested from the library sources as raws/values, every one-bit neighbour of every match value, pairs of different payloads colliding under CRC-32 / byte sum / XOR / CPython integer hash back to back on one decoder, decoded through "
         "decode_basic_string(already_combined=True) and, for single-frame definitions of <= 8 bytes, decode_tcp; compared field by "
         "field with the database reference model. non-trivial = some field in a boundary class (range ends, just in/out, sentinel, "
         "sign boundary, table miss, special floats, non-ASCII/empty/max strings); distinct = (definition, payload)")
@@ -72,11 +72,18 @@ class Checker:
         pkt = bytes([0x80 | nbytes]) + ident.to_bytes(4, "big") + data + bytes(8 - nbytes)
         return self.dec.decode_tcp(pkt)
 
-    def check(self, d, payload, nbytes, classes=(), via="basic"):
-        """-> list of (bucket, what, case)."""
+    def check(self, d, payload, nbytes, classes=(), via="basic", prelude=None, replaying=False):
+        """-> list of (bucket, what, case).  prelude: a payload the same decoder was given just before (digest twins)."""
         ctx = self.ctx
         out = []
         case = {"definition": d.key, "payload_hex": payload.to_bytes(nbytes, "little").hex(), "via": via, "classes": list(classes)}
+        if prelude is not None:
+            case["prelude_hex"] = prelude.to_bytes(nbytes, "little").hex()
+            if replaying:
+                try:
+                    self.decode(d, prelude, nbytes, via)
+                except Exception:
+                    pass
         target = self.db.select(d.pgn, payload)
         if target is None:
             ctx.klass("no_definition_selected")
@@ -119,7 +126,7 @@ class Checker:
 
 def _work(ctx: Ctx, item):
     from hypothesis import strategies as st
-    keys, n_any, n_acc = item
+    keys, n_any, n_acc, n_twin = item
     ck = Checker(ctx)
     db = canboat.db()
     visited_pairs = 0
@@ -176,6 +183,25 @@ def _work(ctx: Ctx, item):
         if d.matches:
             # payloads next to this definition in match space: the returned message must name the definition the database rule selects
             ctx.hyp(one, gen.payloads(d, mode="accepted", pin_match=False), max_examples=max(n_acc, 30), name="match-neighbours")
+        # digest twins: two different payloads that collide under a cheap digest (CRC-32, byte sum, XOR, CPython int hash), back to back
+        # on one decoder; the second must still be decoded from its own bits
+        def twins(p, d=d):
+            (pa, na, _), (pb, nb, _), kind = p
+            n = max(na, nb)
+            if pa == pb or n + 8 > 223:
+                return []
+            a = pa.to_bytes(n, "little") + bytes(8)
+            b = collide.twin(a, pb.to_bytes(n, "little"), kind)
+            ctx.count(2)
+            ctx.klass("class:digest_twin_" + kind)
+            ctx.nt((d.key, "twin", a, b))
+            A, B = int.from_bytes(a, "little"), int.from_bytes(b, "little")
+            res = ck.check(d, A, n + 8, ["digest_twin_a"])
+            res += [(bk + "|after-twin", w, c) for bk, w, c in ck.check(d, B, n + 8, ["digest_twin_" + kind], prelude=A)
+                    if not any(bk == b0 for b0, _, _ in res)]
+            return res
+        ctx.hyp(twins, st.tuples(gen.payloads(d, mode="accepted", extra_bytes=False), gen.payloads(d, mode="accepted", extra_bytes=False),
+                                 st.sampled_from(collide.KINDS)), max_examples=n_twin, name="digest-twins")
         if d.index % 40 == 0:
             p = gen.benign_payload(d)
             ctx.sample({"definition": key, "benign_payload_hex": p[0].to_bytes(p[1], "little").hex(), "fields": len(d.fields)})
@@ -185,10 +211,10 @@ def _work(ctx: Ctx, item):
 def run(ctx: Ctx):
     db = canboat.db()
     keys = [d.key for d in db.defs]
-    n_any, n_acc = (15, 15) if ctx.quick else (1500, 1500)
+    n_any, n_acc, n_twin = (15, 15, 8) if ctx.quick else (1500, 1500, 200)
     # interleave so that every shard gets a mix of small and large definitions
     shards = [keys[i::64] for i in range(64)]
-    pmap(ctx, _work, [(s, n_any, n_acc) for s in shards if s])
+    pmap(ctx, _work, [(s, n_any, n_acc, n_twin) for s in shards if s])
     ctx.notes["definitions_total"] = len(keys)
     ctx.notes["definitions_visited"] = len(ctx.notes.get("definitions_visited", ()))
     ctx.notes["field_class_pairs_total"] = sum(len(gen.sweep_items(d)) for d in db.defs)
@@ -198,7 +224,11 @@ def replay(ctx: Ctx, case):
     ck = Checker(ctx)
     d = canboat.db().by_key[case["definition"]]
     data = bytes.fromhex(case["payload_hex"])
-    res = ck.check(d, int.from_bytes(data, "little"), len(data), case.get("classes", ()), via=case.get("via", "basic"))
+    pre = case.get("prelude_hex")
+    res = ck.check(d, int.from_bytes(data, "little"), len(data), case.get("classes", ()), via=case.get("via", "basic"),
+                   prelude=int.from_bytes(bytes.fromhex(pre), "little") if pre else None, replaying=True)
+    if pre:
+        res = [(b + "|after-twin", w, c) for b, w, c in res]
     if case.get("via") == "tcp":
         res = [(b + "|tcp", w, c) for b, w, c in res]
     return res
